@@ -343,7 +343,11 @@ def run_cli_case(case, ctx, res):
                 continue
             rl = run_cli(["--no-multiprocessing", "--root", str(root), "lint-file", str(f)], cwd=str(root))
             rj = run_cli(["--no-multiprocessing", "--root", str(root), "lint", "--json"], cwd=str(root))
-            data = json.loads(rj.stdout)
+            try:
+                data = json.loads(rj.stdout)
+            except ValueError:
+                res.violation("lint-gives-no-report", f"lint --json exit {rj.exit_code} without a report", **rj.brief())
+                continue
             fe = next((x for x in data["files"] if x["path"] == f.name), None)
             got = {c["value"] for c in fe["copyrights"]} if fe else set()
             if steps == 1 and body == "print('x')\n":
